@@ -415,8 +415,39 @@ fn operands(op: &str, ty: &str, to: &str, nb: usize, nr: usize, rng: &mut Rng) -
                     }
                 }
             }
+            if op == "sqrt" {
+                // the remainder r = x - s^2 ranges over [0, 2s]; the checks of a root split that range at limb
+                // boundaries: take r in {0, 2s} and 2s - r around 2^(n/2) (and around half of it) for extreme and random roots
+                let hbits = bits(ty) / 2;
+                let mut roots: Vec<BigInt> = vec![pow2(hbits - 1), pow2(hbits - 1) + 5, pow2(hbits) - 1, pow2(hbits) - 2, pow2(hbits - 1) - 1];
+                for _ in 0..nr.min(8) {
+                    roots.push(pow2(hbits - 1) + random_value(ty, rng).abs() % pow2(hbits - 1));
+                }
+                for sroot in roots {
+                    let two_s: BigInt = &sroot * 2;
+                    for lim in [pow2(hbits), pow2(hbits - 1), pow2(hbits / 2)] {
+                        for d in -1..=1 {
+                            let r: BigInt = &two_s - &lim + d;
+                            if !r.is_negative() && r <= two_s {
+                                let v = &sroot * &sroot + r;
+                                if in_range(ty, &v) {
+                                    vals.insert(v);
+                                }
+                            }
+                        }
+                    }
+                    for r in [BigInt::zero(), two_s.clone()] {
+                        let v = &sroot * &sroot + r;
+                        if in_range(ty, &v) {
+                            vals.insert(v);
+                        }
+                    }
+                }
+            }
+            // unary operations: the boundary set is small, every value is used
             let all: Vec<Vec<(String, BigInt)>> = vals.iter().map(|v| vec![t(v)]).collect();
-            out.extend(sample(all, nb.max(40), rng));
+            let _ = nb;
+            out.extend(all);
             for _ in 0..nr {
                 out.push(vec![t(&random_value(ty, rng))]);
             }
